@@ -4,6 +4,7 @@ codec functions."""
 from pyvc.dsl import spec, opaque, axiom
 from pyvc.contracts import implies
 from spec.core import long_bytes
+from spec.avro import ITEMS_WF, ITEMS_REM, ITEM_VALS
 
 
 @opaque
@@ -95,3 +96,62 @@ def BLOCK_PAYLOAD(codec: str, data: bytes, level: object) -> bytes:
 def BLOCK_BYTES(codec: str, count: int, data: bytes, level: object, sync: bytes) -> bytes:
     """a file data block: record count, payload length, payload, 16-byte sync marker"""
     return long_bytes(count) + BLOCK_PAYLOAD(codec, data, level) + sync
+
+
+# ------------------------------------------------------------ data blocks of a file (reader side)
+# A *file derivation* bl is a list of blocks, each a pair (record count, [record derivations]);
+# the record derivations are the encoding derivations of spec/avro.py (any block partition of
+# arrays/maps inside the records).  FILE_BLOCKS is what the specification says the file holds
+# after the header; FILE_VALS the records it denotes.
+
+@spec
+def BLOCKS_OK(s: object, ns: dict, bl: list, k: int) -> bool:
+    """blocks bl[k:] are well-formed: the count is the number of records (0 allowed: empty blocks)"""
+    if k >= len(bl):
+        return True
+    return (isinstance(bl[k], tuple) and len(bl[k]) == 2 and isinstance(bl[k][0], int)
+            and not isinstance(bl[k][0], bool) and isinstance(bl[k][1], list)
+            and bl[k][0] == len(bl[k][1]) and ITEMS_WF(s, ns, bl[k][1], 0, False)
+            and BLOCKS_OK(s, ns, bl, k + 1))
+
+
+@spec
+def FILE_BLOCKS(codec: str, s: object, ns: dict, bl: list, level: object, sync: bytes, k: int) -> bytes:
+    """the bytes of the data blocks bl[k:] (left unfolding: what remains to be read)"""
+    if k >= len(bl):
+        return b""
+    return BLOCK_BYTES(codec, bl[k][0], ITEMS_REM(s, ns, bl[k][1], 0, False), level, sync) \
+        + FILE_BLOCKS(codec, s, ns, bl, level, sync, k + 1)
+
+
+@spec
+def FILE_VALS(s: object, ns: dict, bl: list, hi: int) -> list:
+    """the records of blocks bl[:hi], in file order (right unfolding: what has been read)"""
+    if hi <= 0:
+        return []
+    return ITEM_VALS(FILE_VALS(s, ns, bl, hi - 1), s, ns, bl[hi - 1][1], len(bl[hi - 1][1]))
+
+
+@spec
+def BLOCK_LEN(codec: str, s: object, ns: dict, bl: list, level: object, k: int) -> int:
+    """number of bytes block k occupies in the file (count, payload with its length, 16-byte marker)"""
+    return len(long_bytes(bl[k][0])) + len(BLOCK_PAYLOAD(codec, ITEMS_REM(s, ns, bl[k][1], 0, False), level)) + 16
+
+
+@spec
+def BLOCK_OFF(codec: str, s: object, ns: dict, bl: list, level: object, start: int, k: int) -> int:
+    """file offset of block k when the first block starts at `start` (the end of the header)"""
+    if k <= 0:
+        return start
+    return BLOCK_OFF(codec, s, ns, bl, level, start, k - 1) + BLOCK_LEN(codec, s, ns, bl, level, k - 1)
+
+
+@spec
+def BLOCK_VIEWS(codec: str, s: object, ns: dict, bl: list, level: object, start: int, hi: int) -> list:
+    """what the block reader reports for blocks bl[:hi]: (record count, offset, size, decompressed payload);
+    offsets and sizes tile the file from `start` on (C05)"""
+    if hi <= 0:
+        return []
+    return BLOCK_VIEWS(codec, s, ns, bl, level, start, hi - 1) + [
+        (bl[hi - 1][0], BLOCK_OFF(codec, s, ns, bl, level, start, hi - 1), BLOCK_LEN(codec, s, ns, bl, level, hi - 1),
+         ITEMS_REM(s, ns, bl[hi - 1][1], 0, False))]
